@@ -125,7 +125,9 @@ def wp_material(rng, ctr, units, lang_of):
 
 
 # --------------------------------------------------------------------------- project
-WEIRD_NAMES = ["sp ace.c", "semi;colon.c", "ha#sh.c", "co:lon.c", "umläut.c", "quo'te.c", "a.b.c"]
+# names containing ';', ':', '#' or non-ASCII bytes hit known defects K2-K5 at many points; they are exercised by the directed
+# replays listed in known_findings.json and kept out of the random stream so that it can explore past them
+WEIRD_NAMES = ["sp ace.c", "quo'te.c", "a.b.c", "eq=ual.c", "pl+us.c", "com,ma.c", "at@.c", "per%cent.c"]
 
 
 def gen_project(rng, n_units=None, wp=True, inline=0.25, headers=True, weird_names=0.0, big=0.0, cfg_blocks=0.3,
